@@ -82,3 +82,93 @@ def rule_x11(chk: Check, rule_id: str = "X11-literal-evaluation"):
         chk.require(not bad, rule_id, "Parser.literal_value", where,
                     f"a literal's value and validity must be what ast.literal_eval gives for the token text; differs for (text, here, "
                     f"CPython) {bad[:3]} — e.g. bytes literals with non-ASCII characters are refused by CPython")
+
+
+CONCAT_LITERALS = ["''", '""', "'a'", '"b"', "r'\\n'", "b'x'", "b''", "u'u'", "'''t'''", "'\\''", "rb'\\d'"]
+
+
+def rule_x12(chk: Check, rule_id: str = "X12-adjacent-literals"):
+    """Adjacent plain string literals make one Constant whose value is the concatenation of the values of the literals, each
+    evaluated on its own (`'' 'a'` is `'a'`, not the text `'''a'` evaluated in one go); str and bytes do not mix; `kind` is `'u'`
+    exactly when the first literal has the u prefix; the node spans the first literal's start to the last one's end.
+    `Parser._concat_strings_in_constant` is evaluated from source (with `literal_value` / `_add_literals` and whatever other methods
+    it calls) on every sequence of 1–3 literals of a table, and compared with what CPython's own parser gives for the same text."""
+    import collections
+    import itertools
+    from .c17 import Crash, EvalError, Marker, SourceSelf, _mini_eval, module_pure_constants
+    sub = parse_py(repo.SUBHEADER)
+    parser = repo.find_class(sub, "Parser")
+    fn = repo.maybe_func(parser, "_concat_strings_in_constant")
+    chk.count(rule_id)
+    if fn is None:
+        chk.undecided(rule_id, "Parser._concat_strings_in_constant", repo.SUBHEADER,
+                      "the function that joins adjacent literals is not found under its name (its callers are covered by the shape rules)")
+        return
+    where = f"{repo.SUBHEADER}:{fn.lineno}"
+    consts = module_pure_constants(repo.SUBHEADER)
+    methods = {m.name: m for m in parser.body if isinstance(m, ast.FunctionDef)}
+    class_consts = {}
+    for st in parser.body:
+        tgt = st.targets[0] if isinstance(st, ast.Assign) and len(st.targets) == 1 else getattr(st, "target", None)
+        if isinstance(tgt, ast.Name) and getattr(st, "value", None) is not None:
+            try:
+                class_consts[tgt.id] = ast.literal_eval(st.value)
+            except Exception:
+                pass
+    TI = collections.namedtuple("TokenInfo", "type string start end line")
+
+    def boom(*a, **k):
+        raise Marker("syntax error")
+    raisers = {n: boom for n in methods if n.startswith("raise_") or n in ("make_syntax_error", "_build_syntax_error")}
+    allowed = set(methods) | {"literal_eval", "Constant", "TokenInfo"}
+    fake_ast = types.SimpleNamespace(literal_eval=ast.literal_eval, Constant=lambda **kw: types.SimpleNamespace(**kw))
+    param = [a.arg for a in fn.args.args][1]
+    bad, und, n = [], "", 0
+    for k in (1, 2, 3):
+        for combo in itertools.product(CONCAT_LITERALS, repeat=k):
+            text = " ".join(combo)
+            with warnings.catch_warnings():
+                warnings.simplefilter("ignore")
+                try:
+                    c = ast.parse(text, mode="eval").body
+                    want = ("value", c.value, c.kind, (c.lineno, c.col_offset, c.end_lineno, c.end_col_offset))
+                except SyntaxError:
+                    want = ("error",)
+            toks, col = [], 0
+            for t in combo:
+                toks.append(TI(("Token", "STRING"), t, (1, col), (1, col + len(t)), text))
+                col += len(t) + 1
+            # (the names of the non-repository callables are listed with the primitives: that is what makes them callable in nested
+            # evaluations of the class's own methods)
+            me = SourceSelf(methods, dict(raisers, literal_eval=ast.literal_eval, Constant=fake_ast.Constant, TokenInfo=TI))
+            me.__dict__["_consts"] = class_consts
+            env = dict(consts)
+            env.update({"self": me, param: list(toks), "ast": fake_ast, "TokenInfo": TI,
+                        "Token": types.SimpleNamespace(STRING=("Token", "STRING"), NUMBER=("Token", "NUMBER"))})
+            me.__dict__["_env_extra"] = {kk: v for kk, v in env.items() if kk not in ("self", param)}
+            n += 1
+            try:
+                with warnings.catch_warnings():
+                    warnings.simplefilter("ignore")
+                    r = _mini_eval(fn, env, allowed, local_calls=True)
+                got = ("value", getattr(r, "value", None), getattr(r, "kind", None),
+                       (getattr(r, "lineno", None), getattr(r, "col_offset", None), getattr(r, "end_lineno", None), getattr(r, "end_col_offset", None)))
+            except Marker:
+                got = ("error",)
+            except Crash as e:
+                got = ("crash", str(e)[:60])
+            except EvalError as e:
+                und = str(e)
+                break
+            same = got[0] == want[0] and (got[0] != "value" or (type(got[1]) is type(want[1]) and got[1:] == want[1:]))
+            if not same:
+                bad.append((text, got, want))
+        if und:
+            break
+    chk.units["adjacent_literal_sequences"] = n
+    if und:
+        chk.undecided(rule_id, "Parser._concat_strings_in_constant", where, f"not evaluable: {und}")
+    else:
+        chk.require(not bad, rule_id, "Parser._concat_strings_in_constant", where,
+                    f"adjacent literals must give the Constant CPython gives (each literal evaluated on its own, values added, str and "
+                    f"bytes not mixed, kind from the first, span first..last); differs on (text, here, CPython) {bad[:2]} ({len(bad)} of {n})")
